@@ -39,6 +39,11 @@ fn same_k(before: &Snapshot, after: &Snapshot, what: &str, known: Option<(&Vec<u
                 sig = "C06:err-changed:queue:dupseq-error-prunes-queued-later-seq-of-actor".to_string();
             }
         }
+        if gained > 0 && lost.is_empty() && what.contains("duplicate seq") && what.contains("sync(") {
+            // receive_sync_message ingests the changes of one message in several steps: the ones before the
+            // rejected change stay queued although the call returns Err
+            sig = "C06:err-changed:queue:dupseq-error-after-part-of-a-sync-message-was-queued".to_string();
+        }
         return Err(Failure::new(sig, format!("{what} returned Err but the pending queue changed: get_missing_deps {:?} -> {:?}; {} queued change(s) lost, {} gained", before.missing, after.missing, lost.len(), gained)));
     }
     Ok(())
